@@ -47,11 +47,11 @@ def render(st):
         elif it[0] == "C":
             out.append("/*%s*/" % it[1])
         elif it[0] == "N":
-            out.append('@namespace "%s";' % it[1])
+            out.append('@namespace p "%s";' % it[1])
     return "\n".join(out) if out and out[0].startswith("@charset") else "\n".join(out)
 
 
-STMT = re.compile(r'\s*(?:@import "([^"]*)"(?: ([a-z, ]+))?;|@namespace "([^"]*)";|/\*(.*?)\*/|'
+STMT = re.compile(r'\s*(?:@import "([^"]*)"(?: ([a-z, ]+))?;|@namespace p "([^"]*)";|/\*(.*?)\*/|'
                   r'([a-z][a-z0-9]*)\{content:"([^"]*)"\})', re.S)
 IDENT = re.compile(r"^-?[A-Za-z_][A-Za-z0-9_-]*$")
 
@@ -353,7 +353,9 @@ def conv_rules(rs):
     out = []
     for r in rs:
         k = r[0]
-        if k == "import":
+        if k == "import" and len(r) == 3:
+            out.append(["import", S(r[1]), S(r[2])])
+        elif k == "import":
             out.append(["import", S(r[1]), S(r[2]), r[3], None if r[4] is None else S(r[4]), conv_rules(r[5])])
         elif k == "media":
             out.append(["media", S(r[1]), conv_rules(r[2])])
@@ -484,10 +486,22 @@ def oracle(case, impl):
                                            for b in bl})) + (" cyclic" if cyclic else " acyclic")
     if impl.get("default_calls"):
         out.append(("the default (network/file) fetcher was called: %r" % impl["default_calls"][:3], sig))
-    bad = [u for u in impl.get("trace", []) + impl.get("resolve_calls", []) if u not in allowed]
-    if bad and impl["r"] != "D":
-        out.append(("the fetcher was called with %r which is not an @import href resolved against its sheet's URL"
-                    % bad[0], sig))
+    absolute = bool(urllib.parse.urlparse(case["href"] or cwd_url()).scheme)
+    # (util.urljoin deliberately differs from RFC 3986 for relative bases: 'test.css' + '../x.css' = '../x.css';
+    #  the URL statements are evaluated for absolute sheet URLs only)
+    if absolute and impl["r"] != "D":
+        bad = [u for u in impl.get("trace", []) if u not in allowed]
+        if bad and ("/../" in bad[0] or bad[0].endswith("/..")):
+            out.append(("the fetcher was called with %r: '..' segments above the root are kept instead of dropped "
+                        "(RFC 3986 5.2.4), which is not the href resolved against the sheet's URL" % bad[0],
+                        sig + " above-root"))
+        elif bad:
+            out.append(("the fetcher was called with %r which is not an @import href resolved against its sheet's URL"
+                        % bad[0], sig))
+        bad = [u for u in impl.get("resolve_calls", []) if u not in allowed and "/../" not in u]
+        if bad:
+            out.append(("resolveImports re-requested a kept nested @import as %r, i.e. resolved against the flattened "
+                        "sheet instead of the sheet that contains it" % bad[0], sig + " resolve-rebase"))
     if impl["r"] == "D":
         out.append(("the parse does not complete: RecursionError while loading nested imports", sig))
         return out
@@ -512,6 +526,8 @@ def oracle(case, impl):
         else:
             level = 3
     got = [r for r in impl["rules"] if r[0] == "import"]
+    if not absolute or any("/../" in u for u in impl["trace"]):
+        want, got = [], []          # per-import statements need RFC resolution: absolute, not above the root
     if [r[1] for r in got] != [it[1] for it in want] and documented(case):
         out.append(("the @import rules kept are %r, written were %r" % ([r[1] for r in got], [it[1] for it in want]), sig))
         return out
@@ -581,7 +597,7 @@ def styles_of(flat, media=None):
         if r[0] == "style":
             out.append([r[1], media])
         elif r[0] == "media":
-            out += styles_of(r[1], r[0] and r[1 - 0] if False else r[1]) if False else styles_of(r[2], r[1])
+            out += styles_of(r[2], r[1])
     return out
 
 
@@ -803,9 +819,15 @@ def run(ctx):
                 mism.append(({"urljoin": [b, h]}, "urljoin(%r, %r): implementation %r, model %r" % (b, h, want, got)))
             if want["r"] == "ok":
                 # the model keeps URLs parsed: urlparse(urlunparse(r)) must give r back for every joined URL
-                p = urllib.parse.urlparse(want["url"], allow_fragments=False)
-                if urllib.parse.urlunparse(p) != want["url"]:
-                    mism.append(({"urljoin": [b, h]}, "urlparse/urlunparse do not round-trip on %r" % want["url"]))
+                try:
+                    p = urllib.parse.urlparse(want["url"], allow_fragments=False)
+                    rec = [p.scheme, p.netloc, p.path, p.query]
+                except ValueError:
+                    rec = None
+                mrec = None if m.get("parsed") is None else [S(x) for x in m["parsed"]]
+                if got == want and rec is not None and mrec != rec and h != want["url"]:
+                    mism.append(({"urljoin": [b, h]}, "parsed form of the joined URL %r: urlparse %r, model %r"
+                                 % (want["url"], rec, mrec)))
         n_join = len(pairs)
     else:
         n_join = 0
